@@ -34,12 +34,12 @@ type colSpec struct {
 	Enum []string
 }
 
-var textAlts = []string{"with space", `comma, and "quote"`, "ünï-çødé 日本", "line1\nline2", ""}
+var textAlts = []string{"with space", `comma, and "quote"`, "ünï-çødé 日本", "line1\nline2", "#7 starts with a hash", ""}
 var timeAlts = []string{"00:00:00", "4:05:06", "25:10:05", "47:59:59"}
 var decimalAlts = []string{"0", "1.5", "-73.25", " 2.5 ", "1e-3"}
 var intAlts = []string{"0", "-5", "2147483647"}
-var dateAlts = []string{"20240310", "20231105", "19700101", "20240229", "20241231"}
-var zoneAlts = []string{"Europe/London", "Asia/Kolkata", "UTC", "Mars/Phobos", "America/New_York"}
+var dateAlts = []string{"20240310", "20231105", "19700101", "20240229", "20241231", "20241006", "20240407"}
+var zoneAlts = []string{"Europe/London", "Asia/Kolkata", "UTC", "Mars/Phobos", "Australia/Sydney", "Australia/Lord_Howe", "America/New_York"}
 var colorAlts = []string{"FFFFFF", "000000", "ff00aa"}
 
 var (
@@ -71,7 +71,7 @@ var staticSpecs = map[string][]colSpec{
 
 var staticFileOrder = []string{"agency.txt", "routes.txt", "stops.txt", "transfers.txt", "calendar.txt", "calendar_dates.txt", "shapes.txt", "trips.txt", "frequencies.txt", "stop_times.txt"}
 
-var idStyles = []string{"%s%d", "%s %d", `%s,"%d"`, "%s-é%d"}
+var idStyles = []string{"%s%d", "%s %d", `%s,"%d"`, "%s-é%d", "#%s%d"}
 
 type staticGen struct {
 	c *Ctx
@@ -138,7 +138,7 @@ func (g *staticGen) cell(file string, row int, sp colSpec) string {
 	case kText:
 		return alt(fmt.Sprintf("%s %d", sp.Name, u), textAlts)
 	case kTextReq:
-		return alt(fmt.Sprintf("%s %d", sp.Name, u), textAlts[:4])
+		return alt(fmt.Sprintf("%s %d", sp.Name, u), textAlts[:5])
 	case kEnum:
 		base := sp.Enum[(u+row)%len(sp.Enum)]
 		k := g.choose(label, len(sp.Enum))
@@ -171,7 +171,7 @@ func (g *staticGen) cell(file string, row int, sp colSpec) string {
 		return alt(fmt.Sprintf("2024%02d%02d", 1+u%12, 1+u%28), dateAlts)
 	case kZone:
 		if row == 0 {
-			return alt("America/New_York", zoneAlts[:4])
+			return alt("America/New_York", zoneAlts[:6])
 		}
 		return alt(zoneAlts[(row-1)%len(zoneAlts)], zoneAlts[1:])
 	case kBool:
